@@ -156,6 +156,20 @@ def behaviour(tz, z, rz, rng, k=12):
     return out
 
 
+class ForwardOnly(object):
+    """a readable stream without seek()/tell(); optionally hands out fewer bytes than asked for, never more"""
+
+    def __init__(self, data, chunk=None):
+        self._b, self._chunk = io.BytesIO(data), chunk
+        self.name = 'forward-only'
+
+    def read(self, n=-1):
+        return self._b.read(n)
+
+    def __repr__(self):
+        return '<forward-only stream>'
+
+
 def check_load_paths(ctx, tz, name, path, data, rz, rng):
     from dateutil.zoneinfo import ZoneInfoFile
     import random
@@ -164,6 +178,17 @@ def check_load_paths(ctx, tz, name, path, data, rz, rng):
     zs['stream'] = tz.tzfile(io.BytesIO(data))
     with open(path, 'rb') as f:
         zs['open-file'] = tz.tzfile(f)
+
+    def attempt(key, make):
+        # a load path that raises is an observation about the library, not about the harness
+        try:
+            zs[key] = make()
+        except Exception as e:
+            ctx.ev()
+            ctx.violation('load-path-raised', {'zone': name, 'load_path': key}, '%s: %s' % (type(e).__name__, e))
+    # an open stream that can only be read forward (pipe, socket, HTTP body): read() is all a TZif reader needs
+    attempt('forward-only-stream', lambda: tz.tzfile(ForwardOnly(data)))
+    attempt('forward-only-stream-small-reads', lambda: tz.tzfile(ForwardOnly(data, chunk=7)))
     g = tz.gettz(name)
     if g is not None and isinstance(g, tz.tzfile):
         zs['gettz'] = g
@@ -172,9 +197,10 @@ def check_load_paths(ctx, tz, name, path, data, rz, rng):
         zs['gettz-abspath'] = g
     base = zs['path']
     for proto in range(pickle.HIGHEST_PROTOCOL + 1):
-        zs['pickle-%d' % proto] = pickle.loads(pickle.dumps(base, proto))
-    zs['copy'] = copy.copy(base)
-    zs['deepcopy'] = copy.deepcopy(base)
+        attempt('pickle-%d' % proto, lambda: pickle.loads(pickle.dumps(base, proto)))
+        attempt('pickle-%d-of-aware-datetime' % proto, lambda: pickle.loads(pickle.dumps(D.datetime(2020, 6, 1, 12, tzinfo=base), proto)).tzinfo)
+    attempt('copy', lambda: copy.copy(base))
+    attempt('deepcopy', lambda: copy.deepcopy(base))
     seed = rng.random()
     ref = behaviour(tz, base, rz, random.Random(seed))
     for k, z in zs.items():
